@@ -20,7 +20,7 @@ type offer struct {
 var c06Offers = []offer{
 	{"int", []string{"vi", "7", "fi()", "(vi + 1)", "si[0]", "len(vs)", "(fi())"}},
 	{"bool", []string{"vb", "true", "fb()", "(vi < 2)", "!vb", "sb[0]", "(fb())"}},
-	{"string", []string{"vs", `"lit"`, "fs()", `(vs + "x")`, "nil", "itoa(vi)", "vs[0]", "((fs()))"}},
+	{"string", []string{"vs", `"lit"`, "fs()", `(vs + "x")`, "nil", "itoa(vi)", "vs[0]", "((fs()))", `""`, "``", "ve", "fe()"}},
 	{"[]int", []string{"si", "[]int{1}", "fsi()", "(fsi())"}},
 	{"[]bool", []string{"sb", "[]bool{true}"}},
 	{"[]string", []string{"ss", `[]string{"a"}`}},
@@ -41,6 +41,7 @@ vs := "s"
 si := []int{1, 2}
 sb := []bool{true}
 ss := []string{"a"}
+var ve error = "e"
 func fv() {
 }
 func f2() (int, int) {
@@ -58,6 +59,12 @@ func fs() string {
 func fsi() []int {
 	return []int{3}
 }
+func fe() error {
+	return "bad"
+}
+func f2e() (int, error) {
+	return 1, nil
+}
 func gi(p int) {
 }
 func gb(p bool) {
@@ -65,6 +72,8 @@ func gb(p bool) {
 func gs(p string) {
 }
 func gsi(p []int) {
+}
+func ge(p error) {
 }
 func gss(p []string) {
 }
@@ -91,7 +100,11 @@ var c06PreludeItems = func() [][2]string {
 			}
 			items = append(items, [2]string{name, text + "}\n"})
 		} else {
-			items = append(items, [2]string{l[:strings.Index(l, " ")], l + "\n"})
+			name := l[:strings.Index(l, " ")]
+			if name == "var" {
+				name = strings.Fields(l)[1]
+			}
+			items = append(items, [2]string{name, l + "\n"})
 		}
 	}
 	return items
@@ -240,6 +253,13 @@ func c06Positions() []position {
 	add("assign-int", "vi = $X", "int")
 	add("assign-bool", "vb = $X", "bool")
 	add("assign-string", "vs = $X", "string")
+	add("assign-error", "ve = $X", "string")
+	add("compound-error/+", "ve += $X", "string")
+	add("assign-two-second-error", "vi, ve = 1, $X", "string")
+	add("assign-string-from-error-pair", "vi, vs = f2e()\nvs = $X", "string")
+	add("assign-error-pair-then", "vi, ve = f2e()\nve = $X", "string")
+	add("cmp-error-nil", "t := ve == $X", "string")
+	add("arg-string-to-error-param", "ge($X)", "string")
 	add("assign-slice-int", "si = $X", "[]int")
 	add("assign-slice-string", "ss = $X", "[]string")
 	add("assign-two-second", "vi, vb = 1, $X", "bool")
@@ -310,6 +330,10 @@ func c06Positions() []position {
 		}
 		t := "func r() (int, string) {\n" + n[0] + "return 1, $X\n" + strings.ReplaceAll(n[1], "$D", `0, ""`) + "}\n"
 		ps = append(ps, position{name: "return-second-of-two/" + nest, tmpl: t, allowed: []string{"string"}, kind: "func"})
+		t = "func r() ([]string, error) {\n" + n[0] + "return $X, \"e\"\n" + strings.ReplaceAll(n[1], "$D", `[]string{}, ""`) + "}\n"
+		ps = append(ps, position{name: "return-slice-first-of-two/" + nest, tmpl: t, allowed: []string{"[]string"}, kind: "func"})
+		t = "func r() error {\n" + n[0] + "return $X\n" + strings.ReplaceAll(n[1], "$D", `""`) + "}\n"
+		ps = append(ps, position{name: "return-error/" + nest, tmpl: t, allowed: []string{"string"}, kind: "func"})
 		t = "func r() (int, int) {\n" + n[0] + "return $X\n" + strings.ReplaceAll(n[1], "$D", "0, 0") + "}\n"
 		ps = append(ps, position{name: "return-one-for-two/" + nest, tmpl: t, excluded: []string{"multi"}, kind: "func"})
 		t = "func r() int {\n" + n[0] + "return 1, $X\n" + strings.ReplaceAll(n[1], "$D", "0") + "}\n"
